@@ -325,7 +325,7 @@ class Interp:
             return "str"
         if isinstance(v, (bytes, SymBytes, Rope)):
             return "bytes"
-        if isinstance(v, SymSeq):
+        if isinstance(v, SymSeq) or type(v).__name__ == "LoweredSeq":
             return v.kind
         if isinstance(v, tuple):
             return "tuple"
